@@ -279,6 +279,9 @@ def run_case(case):
       if why:
         rec.count("ungated_" + why)
         break
+      if meta.diverged(U[t]["obs"], 0, B[t]["obs"], w):
+        rec.count("ungated_diverged_world")
+        break
       tag = f"{owner}.{name} batch={b} world {w} step {t}"
       c1 = meta.compare_obs(rec, tag, U[t]["obs"], B[t]["obs"], 0, w, sig_prefix=f"{owner}.{name}:")
       c2 = meta.compare_contacts(rec, tag, U[t]["con"][0], B[t]["con"][w], sig_prefix=f"{owner}.{name}:")
